@@ -122,7 +122,12 @@ impl StateMachine<'_> {
                 // the unchanged line it is.
                 self.painter.paint_buffered_minus_and_plus_lines();
                 let state = State::HunkZero(Unified, None);
-                self.painter.paint_zero_line("\n", state.clone());
+                if self.config.color_only {
+                    // (one output line per input line, with the same text)
+                    self.painter.output_buffer.push('\n');
+                } else {
+                    self.painter.paint_zero_line("\n", state.clone());
+                }
                 self.minus_line_counter.count_line();
                 state
             }
